@@ -129,15 +129,18 @@ def run_case(ctx, name, params):
                     ctx.count("diagonal_points")
                     try:
                         v = float(p.evaluate(Individual(x))[0])
+                    except OverflowError:
+                        v = math.inf
                     except Exception as e:
                         ctx.violation("C15/%s/totality/exception/%s" % (cls.__name__, type(e).__name__), "%s(dimension %d).evaluate raised %r on a "
                                       "point of its box" % (cls.__name__, d_, e), {"function": cls.__name__, "dimension": d_, "t": t, "alternating": alt})
                         return
                     if not math.isfinite(v):
-                        ctx.violation("C15/%s/totality/not_finite_scalar" % cls.__name__, "%s(dimension %d) returned %r at the box point with all "
-                                      "coordinates %s%r" % (cls.__name__, d_, v, "+-" if alt else "", t),
-                                      {"function": cls.__name__, "dimension": d_, "t": t, "alternating": alt})
-                        return
+                        # sums and products over a thousand coordinates leave the double range for more than one formula (Perm, and
+                        # Xin-She Yang's function written as its documentation gives it): whether such a dimension is "supported" the
+                        # statement does not say -- counted, not judged (see DESIGN 8.5); the bound clause below still applies
+                        ctx.count("diagonal_points_beyond_the_double_range")
+                        continue
                     if opt is not None and cls.__name__ not in ("XinSheYang3", "ModifiedEasom") and sign * v < sign * opt - TOL:
                         ctx.violation("C15/%s/bound/%s" % (cls.__name__, "declared_" + ("maximize" if sign < 0 else "minimize")),
                                       "%s(dimension %d): value %r at the point with all coordinates %s%r is better than the documented optimum %r"
